@@ -55,6 +55,7 @@ def check(F, R):
     d_activity_offset(F, R)
     tableau_readback(F, R)
     early_ok(F, R)
+    h_positional(F, R)
 
 
 def t_map_comparison(F, R):
@@ -338,3 +339,42 @@ def early_ok(F, R):
                     R.fn(p)
                     R.ob("EARLY-OK", p, "constraints()" in ctxt, F.loc(f, n),
                          "returns Ok(..) without calling a back-end, guarded only by `%s`: the rows are never consulted, so a variable-free contradictory model (0 = 1) is reported as solved" % ctxt)
+
+
+def h_positional(F, R):
+    """H-POSITIONAL: calc_objective / calc_constraints / make_constraints_map_from_assignment read their value vector by
+    position in the model's variable order: every vector handed to them must be built by iterating that model's variable
+    list (directly, or zipped with the solver's columns), never taken in another component's order"""
+    sinks = ("LinearModel::calc_objective", "LinearModel::calc_constraints", "make_constraints_map_from_assignment")
+    n = 0
+    for f in F.fn_list:
+        if "body" not in f or f["path"].endswith(tuple(sinks)):
+            continue
+        lf = None
+        for c in walk(f["body"]):
+            if c.get("k") not in ("Call", "MCall"):
+                continue
+            cal = norm(c.get("resolved") or c.get("callee") or "")
+            if not cal.endswith(sinks):
+                continue
+            arg = c["args"][-1]
+            if lf is None:
+                lf = LocalFlow(f["body"])
+            # transitive definition text of the argument
+            seen, todo, texts = set(), list(free_locals(arg)), [sexp(arg)]
+            while todo:
+                i = todo.pop()
+                if i in seen:
+                    continue
+                seen.add(i)
+                for d in lf.defs.get(i, []):
+                    texts.append(sexp(d))
+                    todo.extend(free_locals(d))
+            is_param = any(strip(arg).get("k") == "Path" and strip(arg).get("id") == p_["id"] for prm in f.get("params", []) for p_ in walk(prm) if p_.get("k") == "PBind")
+            if is_param:
+                continue  # a forwarding helper: its callers are checked
+            n += 1
+            joined = " <- ".join(texts)
+            ok = re.search(r"\bvariables\(\)|\bvariables\b", joined) is not None
+            R.ob("H-POSITIONAL", "%s:%s" % (f["path"], cal.rsplit("::", 1)[-1]), ok, F.loc(f, c), "the value vector `%s` must be built in the model's variable order; its definition chain is: %s" % (sexp(arg)[:60], joined[:300]))
+    R.ob("H-POSITIONAL", "sites", n >= 4, "", "expected at least 4 positional evaluation sites, found %d" % n)
